@@ -52,6 +52,10 @@ func c13Pass(r *core.Rand, jitter bool) []c13Stmt {
 	add("other", "CREATE DATABASE d1", "")
 	add("other", "CREATE DATABASE d2", "")
 	add("other", "USE d1", "")
+	// selecting the database that is already selected (also in another letter
+	// case) must not leave a second store, with a flusher of its own, behind
+	add("other", "USE d1", "")
+	add("other", "USE D1", "")
 	add("create", "CREATE TABLE a (k INT, g INT, s VARCHAR(40))", "dirty2")
 	add("create", "CREATE TABLE b (k INT, g INT, s VARCHAR(40))", "")
 	add("insert", "INSERT INTO a VALUES "+rows(0, 1), "wal")
